@@ -24,6 +24,7 @@ Val(asz, s) ==
       [] s = "4096" -> N8(4096) [] s = "4112" -> N8(4112)
       [] s = "T2" -> Sub(M, N8(2)) [] s = "T1" -> Sub(M, N8(1)) [] s = "M" -> M
       [] s = "P1" -> Add(M, N8(1)) [] s = "U1" -> U64M1
+      [] s = "3" -> N8(3) [] s = "255" -> N8(255) [] s = "256" -> N8(256) [] s = "F00" -> Sub(M, N8(255))     \* F00 = 0x..ff00
 
 DataAt(n) == <<80 + n>>
 (* entry whose expression ends with a reference to DIE tgt (0 root, i the i-th child, 99 the last child) *)
@@ -42,9 +43,11 @@ Alpha(asz, fam, n, lvl) ==
                             <<"0", "16">>, <<"T2", "T1">>}
               ELSE IF mid THEN {<<"4096", "4112">>, <<"M", "16">>, <<"0", "0">>, <<"T1", "M">>}
               ELSE {<<"4096", "4112">>, <<"M", "16">>}
+        \* start/length: just fitting (end = M-1, M), leaving the address space by 0 and 1 (end = M+1,
+        \* M+2: past 2^32 at size 4, past 2^64 at size 8), leaving u64 at either size (length 2^64-1)
         SL == IF full THEN {<<"4096", "0">>, <<"4096", "16">>, <<"M", "1">>, <<"T2", "1">>, <<"0", "16">>, <<"T1", "2">>, <<"0", "0">>,
-                            <<"16", "U1">>}
-              ELSE IF mid THEN {<<"4096", "16">>, <<"4096", "0">>, <<"M", "1">>}
+                            <<"16", "U1">>, <<"T1", "1">>, <<"F00", "255">>, <<"F00", "256">>, <<"T2", "3">>, <<"F00", "U1">>}
+              ELSE IF mid THEN {<<"4096", "16">>, <<"4096", "0">>, <<"M", "1">>, <<"T1", "2">>, <<"F00", "256">>}
               ELSE {<<"4096", "16">>}
     IN {Ent("base", V(a), Z8, <<>>) : a \in B}
        \cup {Ent("opair", V(x[1]), V(x[2]), d) : x \in OP}
@@ -125,6 +128,9 @@ NamedWhy(L, i, hb, enc) ==
 Why(L, enc, lp) ==
     IF NamedReject(L, 1, HaveBase(lp), enc) THEN NamedWhy(L, 1, HaveBase(lp), enc)
     ELSE IF \E i \in DOMAIN L : L[i].k \in {"opair", "se", "slen"} /\ enc.ver <= 4 /\ L[i].a = OnesSized(enc.asz) THEN "all-ones-begin"
+    ELSE IF \E i \in DOMAIN L : L[i].k = "slen" /\ enc.ver <= 4 /\ FitsBytes(L[i].a, enc.asz)
+                                 /\ (AddOverflows(L[i].a, L[i].b) \/ ~FitsBytes(Add(L[i].a, L[i].b), enc.asz))
+         THEN "start-length-end-outside-address-space"
     ELSE IF \E i \in DOMAIN L : ~CanCarry(L[i], enc) THEN "does-not-fit"
     ELSE "none"
 
